@@ -18,6 +18,7 @@
 -/
 import IgrisModel.C15.Lemmas9
 import IgrisModel.C15.Lemmas10
+import IgrisModel.C15.Lemmas11
 namespace Igris.C15
 open Igris.Proto
 
@@ -314,10 +315,13 @@ theorem newdata_int_length (cap : Nat) (hcap : 1 ≤ cap) (ops : List SOp) (d : 
 example : ((Sline.init 4).newdataI [0x61, 0x62] (-5)).2 = 0 ∧ ((Sline.init 4).newdataI [0x61, 0x62] 1).1.text = [0x61] := by
   decide
 
-/-- capacity 0 is outside the contract (finding C15-capacity-zero): already the
-first typed character / the terminator is stored outside the 0-byte buffer -/
+/-- capacity 0 (finding C15-capacity-zero), what is left of it after the two
+repairs of the sline half (fix bd7ecca: `sline_putchar` refuses; round 3:
+`sline_getline` writes no terminator without a buffer — `sline_any_capacity`
+below): a READLINE over a 0-byte line buffer still reads `history_space[0]` of a
+0-byte history on the first Up (`strlen` of an empty object). -/
 theorem capacity_zero_witness :
-    ((Sline.init 0).putchar 0x61).1.fault = true ∧ (Sline.init 0).getline.fault = true := by decide
+    ((((Readline.init 0 1).putchar ESC).1.putchar 0x5b).1.putchar 0x41).1.faulted = true := by decide
 
 /-! ### readline_linecpy -/
 
@@ -565,5 +569,111 @@ example : keyPresses [CR, LF, CR, LF] = [.enter, .enter] ∧
     keyPresses [ESC, 0x5b, 0x33, 0x7e, 0x61] = [.delete, .char 0x61] ∧
     keyPresses [ESC, ETX, 0x5b, 0x41] = [.interrupt, .char 0x5b, .char 0x41] ∧
     keyPresses [ESC, 0x5b, 0x5a, ESC, 0x5b, 0x44] = [.left] := by decide
+
+/-! ## Extension round 3 -/
+
+/-! ### sline: every capacity, 0 included -/
+
+/-- THE EDIT BUFFER IS SAFE FOR EVERY CAPACITY, 0 INCLUDED (after fix bd7ecca and
+the round-3 fix of `sline_getline`): for every history of API calls `cursor ≤
+len`, `len < cap` — or `len = 0` when there is no buffer at all —, and no access
+left the buffer.  A line without a buffer stays the empty line whatever is called. -/
+theorem sline_any_capacity (cap : Nat) (ops : List SOp) :
+    let s := (Sline.init cap).runOps ops
+    s.cursor ≤ s.len ∧ (s.len < cap ∨ (cap = 0 ∧ s.len = 0)) ∧ s.buf.length = cap ∧ s.fault = false ∧
+    (cap = 0 → s = Sline.init 0) := by
+  intro s
+  by_cases h0 : cap = 0
+  · subst h0
+    have e : s = Sline.init 0 := runOps_cap0 ops
+    rw [e]
+    exact ⟨Nat.le_refl _, Or.inr ⟨rfl, rfl⟩, rfl, rfl, fun _ => rfl⟩
+  · obtain ⟨a, b, _, d, e⟩ := sline_inv cap (by omega) ops
+    exact ⟨a, Or.inl b, d, e, fun h => absurd h h0⟩
+
+example : ((Sline.init 0).runOps [.putchar 0x61, .newdata [1, 2], .getline, .backspace 3]) = Sline.init 0 := by decide
+
+/-! ### the `int16_t` parameter of `vterm_automate_newdata` -/
+
+/- The property speaks of "every byte sequence typed".  igris' own callers hold
+the byte in a (signed) `char` and pass it to the `int16_t` parameter; the
+parameter's negative range used to be "no character" as a whole, so every byte
+≥ 0x80 (all of UTF-8) was dropped on that path.  After `fix: only
+VTERM_INIT_STEP is the init step` every byte except 0xFF arrives
+(`char_parameter_partial`); 0xFF sign-extends to -1 = VTERM_INIT_STEP and cannot
+be told from it (`char_parameter_witness`, finding C15-char-ff). -/
+
+/-- a byte held in a `char` and passed to the `int16_t` parameter is the key press
+of that byte — for every byte but 0xFF, in every state of the terminal -/
+theorem char_parameter_partial (v : Vterm) (b : Byte) (hb : b ≠ 0xFF) : v.keyI (sextChar b) = v.key b :=
+  keyI_char v b hb
+
+example : sextChar 0xC3 = -61 ∧ (Vterm.init 4 1 false).keyI (-61) = (Vterm.init 4 1 false).key 0xC3 := by decide
+
+/-- 0xFF through a `char` is the init step: no character is typed -/
+theorem char_parameter_witness :
+    sextChar 0xFF = -1 ∧
+    (Vterm.init 4 1 false).actEvents [.keyI (sextChar 0xFF), .key CR] = [.exec []] ∧
+    (Ref.init 1).events 4 [0xFF, CR] = [.exec [0xFF]] := by decide
+
+/-- the parameter as a whole: `-1` is the init step, every other `int16_t` types
+its low 8 bits (`(char)input_c`) -/
+theorem int16_parameter (v : Vterm) (i : Int) :
+    (i = -1 → v.keyI i = (v.initStep.1, v.initStep.2, [])) ∧ (i ≠ -1 → v.keyI i = v.key (BitVec.ofInt 8 i)) := by
+  unfold Vterm.keyI
+  exact ⟨fun h => by rw [if_pos h], fun h => by rw [if_neg h]⟩
+
+/-! ### one object, settings changed between the keys -/
+
+/-- A SESSION WITH EVERYTHING A CALLER CAN DO BETWEEN KEYS.  Keys given as bytes
+or as any `int16_t`, init steps at any time, `set_prompt` with ANY bytes
+(unprintable included) and `set_echo` at any time, in any order: the callback
+events are the reference editor's on the bytes that were typed, no access leaves
+the line or the history, the bounds hold, and line / cursor / browse position are
+the reference's.  (What the prompt and the echo flag change is the written
+bytes only.) -/
+theorem session_with_settings (cap depth : Nat) (hcap : 1 ≤ cap) (hd : 1 ≤ depth) (cxx : Bool) (prompt : List Byte)
+    (as : List Act) :
+    let v0 := Vterm.init cap depth cxx prompt
+    let v := v0.runActs as
+    let r := (Ref.init depth).run cap (Act.typed as)
+    v0.actEvents as = (Ref.init depth).events cap (Act.typed as) ∧
+    (v.rl.faulted = false ∧ v.rl.line.cursor ≤ v.rl.line.len ∧ v.rl.line.len < cap ∧ v.rl.headhist < depth ∧
+      v.rl.curhist ≤ depth) ∧
+    (v.nrl.line.text = r.z.line ∧ v.nrl.line.cursor = r.z.left.length ∧ v.nrl.curhist = r.browse) := by
+  intro v0 v r
+  obtain ⟨h1, h2⟩ := acts_sim cap depth hd v0 (Ref.init depth) as (init_sim cap depth hcap hd cxx prompt)
+  have s := safe_of_sim cap depth _ _ h1
+  have e := editor_of_sim cap depth _ _ h1
+  exact ⟨h2, ⟨s.1, s.2.1, s.2.2.1, s.2.2.2.2.2.1, s.2.2.2.2.2.2⟩, ⟨e.1, e.2.1, e.2.2.1⟩⟩
+
+/-- non-vacuity: an unprintable prompt set mid-line, echo switched off and on, a
+byte through the `char` path, an init step in the middle -/
+example : (Vterm.init 6 1 true).actEvents [.key 0x61, .setPrompt [0x07, 0x00 + 0x1b], .setEcho false, .keyI (-61), .initStep,
+      .setEcho true, .key CR, .keyI 0x162, .key LF] = [.exec [0x61, 0xC3], .exec [0x62]] ∧
+    Act.typed [.key 0x61, .setPrompt [0x07, 0x1b], .setEcho false, .keyI (-61), .initStep, .setEcho true, .key CR,
+      .keyI 0x162, .key LF] = [0x61, 0xC3, CR, 0x62, LF] := by decide
+
+/-- `set_prompt` with an unprintable byte: the line is still the reference's
+(`session_with_settings`), the screen clause is not — the prompt is written as
+it is, BEL does not occupy a cell (the limit `AllP prompt` of
+`screen_matches_partial` is needed) -/
+theorem unprintable_prompt_witness :
+    Screen.blank.feed ((Vterm.init 4 1 false [0x07, 0x24]).echoed [0x61]) ≠
+      ⟨[0x07, 0x24] ++ ((Vterm.init 4 1 false [0x07, 0x24]).run [0x61]).rl.line.text,
+       2 + ((Vterm.init 4 1 false [0x07, 0x24]).run [0x61]).rl.line.cursor, .ground⟩ := by decide
+
+/-! ### a terminal with W columns -/
+
+/-- A W-COLUMN TERMINAL WITH AUTO-WRAP SHOWS WHAT THE ONE-ROW MODEL SHOWS, for
+EVERY byte stream, as long as the cursor of the one-row model stays left of the
+last column while the stream is fed (`hw` = the highest column reached): same
+row, same cursor column, same parser state, nothing pending; the only
+difference is that the rows left behind by LF are remembered. -/
+theorem wide_terminal_is_one_row (W : Nat) (s : Screen) (bs : List Byte) (h : s.hw bs + 1 < W) :
+    ∃ above, WScreen.feed W (WScreen.ofScreen [] s) bs = WScreen.ofScreen above (s.feed bs) :=
+  wfeed_eq W [] s bs h
+
+example : Screen.blank.hw ((Vterm.init 6 2 false).echoed [0x61, 0x62, 0x63, ESC, 0x5b, 0x44, 0x78]) = 6 := by decide
 
 end Igris.C15
